@@ -33,6 +33,9 @@ type Config struct {
 	D       *decl.Decl
 	Handler HandlerMode
 	Env     map[string]string
+	// Prefix: argv is an unfinished command line (completion): no end-of-line checks, and an
+	// argument-taking option at the very end is recorded as pending instead of being a fault.
+	Prefix bool
 }
 
 // Fault is one reason to reject.
@@ -92,7 +95,15 @@ type Result struct {
 	States       []string           // canonical state after every token (explorer statistics)
 	Executed     *decl.Cmd          // innermost command, when the parse is clean (nil chain -> Top)
 	Murky        map[*decl.Opt]bool // options whose occurrence count the specification leaves open on this vector
-	Clean        bool
+
+	// context after the last token (prefix mode)
+	Cur        *decl.Cmd
+	Queue      []*decl.PosArg
+	Short      map[string]*decl.Opt
+	Long       map[string]*decl.Opt
+	PendingOpt *decl.Opt
+	Terminated bool
+	Clean      bool
 }
 
 type clm struct {
@@ -317,6 +328,10 @@ func (m *clm) takeOption(o *decl.Opt, inline *string, mayTakeNext bool, at int, 
 		}
 		return m.occur(o, nil, at, 1, tok)
 	}
+	if m.cfg.Prefix && mayTakeNext && len(m.args) == 0 {
+		m.res.PendingOpt = o
+		return true
+	}
 	if !mayTakeNext || len(m.args) == 0 {
 		m.fault(&Fault{Type: flags.ErrExpectedArgument, Opt: o, Token: tok, At: at, Span: 1})
 		return false
@@ -486,6 +501,7 @@ func Run(cfg *Config, argv []string) *Result {
 		tok, at := m.pop()
 		if m.opt(flags.PassDoubleDash) && tok == "--" {
 			m.fate(at, FTerminator)
+			m.res.Terminated = true
 			for len(m.args) > 0 {
 				t, i := m.pop()
 				if !m.addArg(t, i, true) {
@@ -505,6 +521,10 @@ func Run(cfg *Config, argv []string) *Result {
 		if stop {
 			break
 		}
+	}
+	m.res.Cur, m.res.Queue, m.res.Short, m.res.Long = m.cur, m.queue, m.short, m.long
+	if cfg.Prefix {
+		return m.res
 	}
 	if m.res.Fault == nil || (m.res.Fault.Type == flags.ErrUnknownCommand && !m.res.Fault.Raw) {
 		m.finish()
